@@ -173,7 +173,19 @@ def run(ck):
             x = x['recv']
         names.reverse()
         ok = 'filter_map' in names and names[-1] == 'collect' and 'HashMap<' in (L.ty(v[0]) or '')
-        ck.ob('R20.5', 'per-binding|%s' % short(path), ok, L.loc(fn['body']), 'chain %s into a map: one failed binding is one missing entry' % names, fn=path)
+        why = 'chain %s into a map: one failed binding is one missing entry' % names
+        if not ok and len(v) == 1 and H.strip_refs(v[0]).get('k') == 'Path' and 'HashMap<' in (L.ty(v[0]) or ''):
+            # loop form: the returned map is filled by insert() inside a loop over the bindings that a failure leaves with `continue` only
+            mh = H.strip_refs(v[0]).get('hid')
+            ins = [c for c in H.calls_in(fn['body']) if c.get('m') == 'insert' and (H.root_local(c['recv']) or {}).get('hid') == mh]
+            lps = {id(a): a for c in ins for a in H.ancestors(fn, c) if a.get('k') == 'For'}
+            if len(lps) == 1 and ins:
+                lp_ = list(lps.values())[0]
+                hard = [x.get('k') for x in walk(lp_['body'], enter_closures=False) if x.get('k') in ('Ret', 'Break', 'Try') and
+                        next((a for a in H.ancestors(fn, x) if a.get('k') in ('For', 'Loop', 'Closure')), None) is lp_]
+                ok = not hard and not any(x.get('k') in ('Ret', 'Try') for x in walk(fn['body'], enter_closures=False) if not any(y is x for y in walk(lp_)))
+                why = 'loop over the bindings with insert(); a failed binding leaves its iteration with `continue`' if ok else 'the loop over the bindings can be left early (%s): one failed binding drops the bindings after it' % hard
+        ck.ob('R20.5', 'per-binding|%s' % short(path), ok, L.loc(fn['body']), why, fn=path)
 
     # ---- R20.6 first definition wins ------------------------------------------------------------------
     um = L.fn('objtree::ObjectTree::update_id_map')
